@@ -119,6 +119,11 @@ def walk_cases(ctx, root, p, w, out_cases, out_meta, cyclic, nontrivial, pick=No
     if pick is not None:
         # two of the pure walkers' modes always, plus a sample of the transformer classes
         classes = [classes[0], classes[1]] + pick.sample(classes[2:], 2)
+    if fc.multi_visit_size(nodes) is None:
+        # a multi-visit walk of this forest terminates (C20_visit_terminates) but enters exponentially many paths:
+        # a timeout would not mean non-termination, so only the single-visit classes are run here
+        classes = [c for c in classes if c[0] in ('ForestVisitor/single', 'ForestSumVisitor')]
+        ctx.count('walk-multi-visit-skipped-exponential', nontrivial=False)
     for name, cls, args, kw, method in classes:
         if name == 'ForestToParseTree/resolve':
             if p is None:
@@ -226,12 +231,12 @@ IGNORE_CORPUS = [
 ]
 
 
-# genuine defects of the unchanged tree, kept out of the random streams (stable keys)
+# fixed regression corpus (unkeyed)
 EXOTIC = [
-    # every completed item of the start symbol - also inner ones of a recursive start - is carried over ignored
-    # text into a second node span: the same derivation twice, is_ambiguous True for a single derivation
-    ('C20:ignore-recursive-start-dup',
-     dict(g='start: A | B start\nA: "a"\nB: "b"\n%ignore "c"\n', ign=['c'], text='bac', lexer='dynamic')),
+    # F43 (fixed in /repo): every completed item of the start symbol - also inner ones of a recursive start - was
+    # carried over ignored text into a second node span: the same derivation twice, is_ambiguous True for one
+    dict(g='start: A | B start\nA: "a"\nB: "b"\n%ignore "c"\n', ign=['c'], text='bac', lexer='dynamic'),
+    dict(g='start: A | B start\nA: "a"\nB: "b"\n%ignore "c"\n', ign=['c'], text='bbac', lexer='dynamic_complete'),
 ]
 
 
@@ -359,17 +364,11 @@ def correspond(ctx):
                     walk_cases(ctx, ob['root'], ob['p'], w, vcases, vmeta, False, nd > 1, rng)
     import time; ctx.note('t_acyclic=%.1f' % (time.time()-ctx.t0))
     # ---- (c) dynamic lexers with %ignore terminals overlapping the grammar's terminals ----------------
-    import lib
-    listed = {k for f in lib.load_known() if f.get('property') == 'C20' for k in f.get('witness_keys', [])}
-    for key, w in EXOTIC:
+    for w in EXOTIC:
         msg, _ = oracle_ignore(w['g'], w['ign'], w['text'], w['lexer'])
-        ctx.count('exotic', nontrivial=False)
-        if msg and key in listed:
-            ctx.violation('oracle-ignore:exotic', w, True, msg, key=key)
-        elif msg:
-            ctx.note('exotic witness %s reproduces (%s); not listed in KNOWN_FINDINGS.json, reported to the coordinator' % (key, msg))
-        else:
-            ctx.note('exotic witness %s no longer reproduces' % key)
+        ctx.count('regression-corpus', nontrivial=False)
+        if msg:
+            ctx.violation('oracle-ignore:regression-corpus', w, True, msg)
     icases, imeta = [], []
     ign_work = [(g, ign, ts) for g, ign, ts in IGNORE_CORPUS]
     for gi in range(ctx.scale(45, 300) * (3 if ctx.widen else 1)):
